@@ -203,3 +203,19 @@ func regressionCases(c *ctx, firstID int, prepare func(*gcase)) []*gcase {
 	}
 	return out
 }
+
+// witnessString reads one string field of the witness in a replay file.
+func witnessString(path, field string) (string, bool) {
+	b, err := os.ReadFile(path)
+	if err != nil {
+		die("replay file: %v", err)
+	}
+	var f struct {
+		Witness map[string]any `json:"witness"`
+	}
+	if err := json.Unmarshal(b, &f); err != nil {
+		die("replay file: %v", err)
+	}
+	v, ok := f.Witness[field].(string)
+	return v, ok
+}
